@@ -327,7 +327,7 @@ func init() {
 			"2 versus 3 is not judged, only 'reported as undefined'",
 		},
 		Flavour:      "prod+overlay",
-		QuickBudgetS: 420, ThoroughBudgetS: 1500,
+		QuickBudgetS: 420, ThoroughBudgetS: 3600,
 		Spaces: func(tier string) []*core.Space {
 			var sp []*core.Space
 			cfgs := c07Configs()
